@@ -399,6 +399,9 @@ def make_envs(case, names, n=3):
     envs = []
     for _ in range(n):
         envs.append({nm: Fraction(rng.choice([-1, 1]) * rng.randint(1, 12), rng.randint(1, 7)) for nm in names})
+    # a tie: every variable has the same value (distinguishes >= from >, == from != in leading expressions)
+    tie = Fraction(rng.randint(1, 9), rng.randint(1, 4))
+    envs.append({nm: tie for nm in names})
     return envs
 
 
@@ -475,8 +478,11 @@ def oracle_history(h, res):
             if bad:
                 if lead_kind == 'whitespace-sensitive':
                     key = 'blob:whitespace-sensitive'
-                elif lead_kind == 'looser-than-plus':
+                elif lead_kind == 'looser-than-plus' and (n_added + (len(eff[1]) - 1 if eff[0] == 'list' else 0)) > 0:
+                    # D12d is about a term appended after a loosely binding leading expression
                     key = 'blob:looser-than-plus'
+                elif lead_kind == 'looser-than-plus':
+                    key = 'Equation:leading-expression-changed'
                 elif lead_src is not None:
                     key = 'Equation.AddTerm:after-leading-expression'
                 else:
@@ -747,4 +753,4 @@ def replay(path):
     for f in fails:
         print('FAILS:', f['key'], f['what'][:400])
     print('replay: %s (%s)' % ('property violated' if fails else 'property holds on this input', status))
-    return 1 if fails else 0
+    return common.replay_status(PID, fails)
